@@ -1,16 +1,16 @@
 #!/bin/bash
 # usage: confirm_seed.sh <worktree> <seed-dir containing patch.diff demo.rs> -> prints CONFIRMED / REJECTED
 # Confirms in the scratch worktree: demo passes on the clean tree, suite passes with the patch, demo fails with the patch.
-wt="$1"; sd="$2"
+wt="$1"; sd="$2"; REL=${CONFIRM_RELEASE:+--release}
 cd "$wt" || exit 2
 git checkout -q -- . ; rm -f tests/demo.rs
 mkdir -p tests; cp "$sd/demo.rs" tests/demo.rs
 log="$sd/confirm.log"; : > "$log"
 echo "== demo on clean tree" >> "$log"
-if ! timeout 1800 cargo test --offline -j 6 --test demo >> "$log" 2>&1; then echo "REJECTED $sd: demo fails on the clean tree"; rm -f tests/demo.rs; exit 1; fi
+if ! timeout 1800 cargo test $REL --offline -j 6 --test demo >> "$log" 2>&1; then echo "REJECTED $sd: demo fails on the clean tree"; rm -f tests/demo.rs; exit 1; fi
 if ! git apply "$sd/patch.diff" >> "$log" 2>&1; then echo "REJECTED $sd: patch does not apply"; rm -f tests/demo.rs; exit 1; fi
 echo "== demo with patch" >> "$log"
-if timeout 1800 cargo test --offline -j 6 --test demo >> "$log" 2>&1; then echo "REJECTED $sd: demo passes with the patch"; git checkout -q -- .; rm -f tests/demo.rs; exit 1; fi
+if timeout 1800 cargo test $REL --offline -j 6 --test demo >> "$log" 2>&1; then echo "REJECTED $sd: demo passes with the patch"; git checkout -q -- .; rm -f tests/demo.rs; exit 1; fi
 rm -f tests/demo.rs
 echo "== suite with patch" >> "$log"
 if ! timeout 1800 cargo test --workspace --no-fail-fast --offline -j 6 >> "$log" 2>&1; then echo "REJECTED $sd: suite fails with the patch"; git checkout -q -- .; exit 1; fi
